@@ -20,7 +20,7 @@ LEVEL = 'proof'
 LEAN_MODULES = ['MpycV.Props.C22']
 LEAN_NAMESPACES = ['MpycV.C22']
 REQUIRED_THEOREMS = ['from_to_bytes', 'encoding_little_endian', 'to_bytes_overflow', 'byte_length_rule', 'signed_view',
-                     'int_roundtrip', 'pickle_roundtrip']
+                     'int_roundtrip', 'pickle_roundtrip', 'ext_from_to_bytes', 'ext_int_view', 'bin_from_to_bytes']
 RULE = ('bytes: (field, list of elements) for every field of C20 (orders 2,3,5,7,11,4,8,9,16,25,27, GF(2^8), GF(3^5), 64/255/256-bit '
         'primes) and list lengths 0..64 (quick: a spread of lengths incl. 0,1,64), values incl. 0 and q-1; round trip '
         'F(from_bytes(to_bytes(values))) and exact bytes vs an independent encoder; arbitrary byte strings (lengths not a multiple '
